@@ -114,7 +114,7 @@ func TestC03(t *testing.T) {
 		_, unauth := mustFailFor(rec, "C03")
 		unauth = unauth || hasLabel(rec, "unauthorised")
 		if unauth {
-			return sprintf("unauthorised|%s|%s|%s|caller-is-contract=%v", fn, outcomeOf(rec), roleSubset(rec, g), vmcommon.IsSmartContractAddress(rec.Call.Caller)), true
+			return sprintf("unauthorised|%s|%s|%s|caller-is-contract=%v", fn, outcomeOf(rec), roleSubset(rec, g), refIsSC(rec.Call.Caller)), true
 		}
 		if rec.Res.OK() {
 			return sprintf("authorised|%s|%s|%s", fn, rec.V.Side, roleSubset(rec, g)), true
@@ -209,13 +209,13 @@ func c04RoundTrip(g *Gen) []Op {
 	if g.e.M.paused(sh, token) {
 		return nil
 	}
-	return []Op{callOp(g.sysCall(sh, vmcommon.BuiltInFunctionESDTPause, vmcommon.SystemAccountAddress, token)), callOp(g.sysCall(sh, vmcommon.BuiltInFunctionESDTUnPause, vmcommon.SystemAccountAddress, token))}
+	return []Op{callOp(g.sysCall(sh, vmcommon.BuiltInFunctionESDTPause, refSystemAccount, token)), callOp(g.sysCall(sh, vmcommon.BuiltInFunctionESDTUnPause, refSystemAccount, token))}
 }
 
 func TestC04(t *testing.T) {
 	runHistories(t, historyCfg{prop: "C04", weights: c04Weights, minSteps: 12, maxSteps: 70, shadowOps: c04RoundTrip, shadowP: 3, nontrivial: func(rec *CallRecord, g *Gen) (string, bool) {
 		callerKind := "user"
-		if vmcommon.IsSmartContractAddress(rec.Call.Caller) {
+		if refIsSC(rec.Call.Caller) {
 			callerKind = "contract"
 		} else if isESDTSC(rec.Call.Caller) {
 			callerKind = "system"
@@ -545,7 +545,7 @@ func TestC09(t *testing.T) {
 			return "", false
 		}
 		if sig, ok := mustFailFor(rec, "C09"); ok {
-			return sprintf("must-reject|%s|%s|%s|type=%d|side=%s|nargs=%d|caller-contract=%v|%s", rec.Call.Fn, sig, outcomeOf(rec), rec.Call.CallType, rec.V.Side, len(rec.Call.Args), vmcommon.IsSmartContractAddress(rec.Call.Caller), shapeKey(g)), true
+			return sprintf("must-reject|%s|%s|%s|type=%d|side=%s|nargs=%d|caller-contract=%v|%s", rec.Call.Fn, sig, outcomeOf(rec), rec.Call.CallType, rec.V.Side, len(rec.Call.Args), refIsSC(rec.Call.Caller), shapeKey(g)), true
 		}
 		if rec.NonPayableDest {
 			return sprintf("exempt-credit|%s|%s|type=%d|system=%v|refund=%v|nargs=%d", rec.Call.Fn, rec.V.Side, rec.Call.CallType, isESDTSC(rec.Call.Caller), rec.Call.RetErr, len(rec.Call.Args)), true
@@ -667,7 +667,7 @@ func TestC15(t *testing.T) {
 			}
 			var parts []string
 			for _, d := range rec.Res.Diff {
-				if !strings.HasPrefix(d.Key, vmcommon.ElrondProtectedKeyPrefix) {
+				if !strings.HasPrefix(d.Key, refProtectedPrefix) {
 					continue
 				}
 				kind := "balance"
@@ -675,7 +675,7 @@ func TestC15(t *testing.T) {
 					kind = "roles"
 				} else if strings.HasPrefix(d.Key, pfxNonce) {
 					kind = "counter"
-				} else if bytes.Equal([]byte(d.Account), vmcommon.SystemAccountAddress) {
+				} else if bytes.Equal([]byte(d.Account), refSystemAccount) {
 					kind = "pause"
 				}
 				tr := "rewritten"
